@@ -544,7 +544,7 @@ fn c20_case(r: &mut Rng) -> CliCase {
         return c;
     }
     if which == 2 || which == 3 {
-        let mut c = CliCase { cmd: "validate".into(), json: r.chance(1, 2), verbose: r.chance(1, 4), ..Default::default() };
+        let mut c = CliCase { cmd: "validate".into(), json: r.chance(1, 2), verbose: r.chance(1, 4), report_file: r.chance(1, 4), ..Default::default() };
         let mk = |r: &mut Rng| -> FileSpec {
             match r.below(8) {
                 0 => FileSpec { exists: false, content: vec![] },
